@@ -262,7 +262,10 @@ class EncoderSelector:
         # Select based on information index
         i_best = self._get_best(df_score, knows_n_mat=n_mat is not None, by_inf_idx=True)
         if i_best is None:
-            raise RuntimeError(f'Cannot find best encoder, try increasing timeout')
+            # No candidate finished within the time limit: fall back to the default lazy encoder (no up-front encoding)
+            log.debug('No encoder finished in time, using default lazy encoder')
+            self._last_selection_stage = '5_fallback_lazy'
+            return _instantiate_manager(DEFAULT_LAZY_ENCODER())
         self._last_selection_stage = '4_all_inf_idx'
         _print_stats(i_best)
         return assignment_managers[i_best]
